@@ -120,6 +120,30 @@ def Representable (s : Schema) (x : Snap) : Bool :=
   (x.sampleCount.all fun n => n ≠ 0) &&
   (dropZero x.sampleRate == x.sampleRate)
 
+/-! ### NaN (outside the quantifier of C01): what the 1.x library does, for the record
+
+A NaN is an ordinary bit pattern for every 1.x blob and survives bit for bit; the two places where it
+matters are the BPM (the `bpmAnalyzed` column has REAL affinity: SQLite stores NaN as NULL, the track
+then has no BPM) and the beat grid (`validate_beatgrid` tests `!(next <= prev)`, which a NaN offset
+passes, where the Spec's `gridOk` tests `prev < next`). -/
+
+/-- `accepted` with the library's own grid test. -/
+def libAccepted (x : Snap) : Bool :=
+  x.relativePath.isSome &&
+  decide (x.hotCues.length ≤ 8) && x.hotCues.all cueOk &&
+  decide (x.loops.length ≤ 8) && x.loops.all loopOk &&
+  Impl.V1.validGrid x.beatgrid &&
+  (x.waveform.isEmpty || (present x.sampleRate && (x.sampleCount.any fun n => n ≠ 0)))
+
+def dropNaN (x : Option Bits) : Option Bits := x.bind fun b => if F64.isNaN b then none else some b
+
+def normFieldsNaN (s : Schema) (x : Snap) : Snap :=
+  { normFields s x with bpm := dropNaN (normFields s x).bpm }
+
+/-- `normalize` extended to every snapshot, NaN included (equal to `normalize` on `NoNaN` snapshots). -/
+def normalizeNaN (s : Schema) (x : Snap) : Option Snap :=
+  if libAccepted x then some (normFieldsNaN s x) else none
+
 /-! ### C06: the same normalisation, field by field -/
 
 def normStr (v : Option Bytes) : Option Bytes := v
